@@ -127,6 +127,8 @@ func runC20(c *an.Ctx) string {
 	r205LockedFields(c)
 	r206UnsafeGlobals(c)
 	r207RangeAll(c, "R20.7")
+	r208OnceFields(c)
+	r209RuntimeLints(c)
 	r202AtomicFields(c)
 	r202Sampler(c)
 	r204SharedTypes(c)
@@ -624,6 +626,36 @@ func r206UnsafeGlobals(c *an.Ctx) {
 				continue
 			}
 			examined++
+			// a function variable bound to a method of a value of an unsafe type (var intn = rand.New(src).Intn)
+			for _, file := range p.Syntax {
+				for _, d := range file.Decls {
+					gd, ok := d.(*ast.GenDecl)
+					if !ok || gd.Tok != token.VAR {
+						continue
+					}
+					for _, sp := range gd.Specs {
+						vs := sp.(*ast.ValueSpec)
+						for i, id := range vs.Names {
+							if p.TypesInfo.Defs[id] != v || i >= len(vs.Values) {
+								continue
+							}
+							if se, ok := an.Unparen(vs.Values[i]).(*ast.SelectorExpr); ok {
+								if sel := p.TypesInfo.Selections[se]; sel != nil && sel.Kind() == types.MethodVal {
+									rt := sel.Recv()
+									if pt, ok := rt.(*types.Pointer); ok {
+										rt = pt.Elem()
+									}
+									if n, ok := rt.(*types.Named); ok && n.Obj().Pkg() != nil {
+										if key := n.Obj().Pkg().Path() + "." + n.Obj().Name(); unsafeShared[key] {
+											unsafeVars[v] = key + " (bound method " + se.Sel.Name + ")"
+										}
+									}
+								}
+							}
+						}
+					}
+				}
+			}
 			t := v.Type()
 			if pt, ok := t.(*types.Pointer); ok {
 				t = pt.Elem()
@@ -706,4 +738,180 @@ func r207RangeAll(c *an.Ctx, rule string) {
 		}
 	}
 	c.Floor(rule, n, 1, "sync.Map.Range callbacks in the runtime packages")
+}
+
+// r208OnceFields (R20.8): a field that is assigned inside the function handed to
+// a sync.Once (lazy initialisation) may be read by another goroutine's method
+// call; the Once is what orders the write before the reads. Every other function
+// that reads such a field must call Do on that Once first, on every path (the
+// call dominates the read). A read that skips the Once races with the
+// initialisation and can see the field before, or while, it is set.
+func r208OnceFields(c *an.Ctx) {
+	const rule = "R20.8"
+	n := 0
+	for _, dir := range runtimeDirs {
+		var fns []*ssa.Function
+		for _, f := range c.AllFuncs(dir) {
+			if sf := c.SSAFunc(f); sf != nil {
+				fns = append(fns, an.AllFunctions(sf)...)
+			}
+		}
+		// initialisers: functions passed to (*sync.Once).Do, with the Once field they are guarded by
+		type initInfo struct {
+			once *types.Var
+			fn   *ssa.Function
+		}
+		var inits []initInfo
+		fieldOf := func(v ssa.Value) *types.Var {
+			fa, ok := v.(*ssa.FieldAddr)
+			if !ok {
+				return nil
+			}
+			t := fa.X.Type().Underlying()
+			if p, ok := t.(*types.Pointer); ok {
+				t = p.Elem().Underlying()
+			}
+			if st, ok := t.(*types.Struct); ok && fa.Field < st.NumFields() {
+				return st.Field(fa.Field)
+			}
+			return nil
+		}
+		isOnceDo := func(in ssa.Instruction) (*types.Var, ssa.Value, bool) {
+			call, ok := in.(ssa.CallInstruction)
+			if !ok {
+				return nil, nil, false
+			}
+			sc := call.Common().StaticCallee()
+			if sc == nil || sc.Name() != "Do" || sc.Pkg == nil || sc.Pkg.Pkg.Path() != "sync" || len(call.Common().Args) != 2 {
+				return nil, nil, false
+			}
+			return fieldOf(call.Common().Args[0]), call.Common().Args[1], true
+		}
+		for _, g := range fns {
+			for _, b := range g.Blocks {
+				for _, in := range b.Instrs {
+					once, arg, ok := isOnceDo(in)
+					if !ok || once == nil {
+						continue
+					}
+					var target *ssa.Function
+					switch x := arg.(type) {
+					case *ssa.MakeClosure:
+						target, _ = x.Fn.(*ssa.Function)
+						// bound method closure: the wrapper calls the method
+						if target != nil && target.Synthetic != "" {
+							for _, bb := range target.Blocks {
+								for _, ii := range bb.Instrs {
+									if cc, ok := ii.(ssa.CallInstruction); ok {
+										if sc := cc.Common().StaticCallee(); sc != nil {
+											target = sc
+										}
+									}
+								}
+							}
+						}
+					case *ssa.Function:
+						target = x
+					}
+					if target != nil {
+						inits = append(inits, initInfo{once, target})
+					}
+				}
+			}
+		}
+		// fields written by the initialisers
+		onceFields := map[*types.Var]*types.Var{} // field -> once
+		initFns := map[*ssa.Function]bool{}
+		for _, ii := range inits {
+			initFns[ii.fn] = true
+			for _, g := range an.AllFunctions(ii.fn) {
+				if g.Parent() != nil {
+					// goroutines started by the initialiser are not the initialisation itself
+					continue
+				}
+				for _, b := range g.Blocks {
+					for _, in := range b.Instrs {
+						if st, ok := in.(*ssa.Store); ok {
+							if fv := fieldOf(st.Addr); fv != nil && fv != ii.once {
+								onceFields[fv] = ii.once
+							}
+						}
+					}
+				}
+			}
+		}
+		for _, g := range fns {
+			root := g
+			for root.Parent() != nil {
+				root = root.Parent()
+			}
+			if initFns[g] || initFns[root] {
+				continue
+			}
+			doms := map[*ssa.BasicBlock]map[*types.Var]bool{}
+			// blocks (and positions) where once.Do was called
+			for _, b := range g.Blocks {
+				for i, in := range b.Instrs {
+					load, ok := in.(*ssa.UnOp)
+					if !ok || load.Op != token.MUL {
+						continue
+					}
+					fv := fieldOf(load.X)
+					once, isOnceField := onceFields[fv]
+					if fv == nil || !isOnceField {
+						continue
+					}
+					if _, fresh := load.X.(*ssa.FieldAddr).X.(*ssa.Alloc); fresh {
+						continue
+					}
+					n++
+					// a Do on the same Once earlier in this block or in a dominating block
+					ok2 := false
+					for j := 0; j < i; j++ {
+						if o, _, isDo := isOnceDo(b.Instrs[j]); isDo && o == once {
+							ok2 = true
+						}
+					}
+					for d := b.Idom(); d != nil && !ok2; d = d.Idom() {
+						if doms[d] == nil {
+							doms[d] = map[*types.Var]bool{}
+							for _, dn := range d.Instrs {
+								if o, _, isDo := isOnceDo(dn); isDo && o != nil {
+									doms[d][o] = true
+								}
+							}
+						}
+						if doms[d][once] {
+							ok2 = true
+						}
+					}
+					construct := fmt.Sprintf("%s#read(%s)", an.FuncDisplayName(g), fv.Name())
+					c.Check(ok2, rule, construct, load.Pos(), "the lazily initialised field is read after the Once that initialises it", "field "+fv.Name()+" is assigned under "+once.Name()+".Do(…) but read here without calling "+once.Name()+".Do first: the read is not ordered after the initialisation and races with it")
+				}
+			}
+		}
+	}
+	c.Floor(rule, n, 2, "reads of fields initialised under a sync.Once in the runtime packages")
+}
+
+// r209RuntimeLints (R20.9): over every function of the runtime packages (the
+// request path of every generated server), whichever file it lives in: a pooled
+// value (sync.Pool) or a slice obtained from it is not used after the value was
+// returned to the pool.
+func r209RuntimeLints(c *an.Ctx) {
+	const rule = "R20.9"
+	n := 0
+	for _, dir := range runtimeDirs {
+		for _, f := range c.AllFuncs(dir) {
+			n++
+			for _, h := range an.AllLints(f) {
+				if h.Kind != "afterput" {
+					continue // only the lints that describe a concurrency defect belong to this property
+				}
+				c.Failf(rule, h.Construct, h.Pos, "%s", h.Msg)
+			}
+		}
+	}
+	c.Okf(rule, "runtime packages#lints", "%d functions of the runtime packages: no pooled value is used after it was returned to its pool", n)
+	c.Floor(rule, n, 200, "functions of the runtime packages")
 }
